@@ -357,3 +357,6 @@ class GHE(BaseGHE):
         )
 
         self.bhe.b.H = returned_height
+        # the solver's last evaluation need not be at the returned height (it never is when the height is clamped):
+        # leave the temperatures of the returned design behind
+        self.simulate(method=method)
